@@ -108,6 +108,7 @@ fn op_kind(op: &Op) -> &'static str {
         Op::RemoveDiscountPrice { .. } => "remove_discount_price",
         Op::SudoParams { .. } => "sudo_params",
         Op::WlAddMember { .. } => "wl_add_member",
+        Op::Migrate { .. } => "migrate",
     }
 }
 
@@ -736,6 +737,7 @@ fn gen_case(rng: &mut Rng, variant: usize, thorough: bool, lits: &[u128]) -> (Ca
         phases.push((110_000, "late3"));
     }
     let mut t_extra = 0u64;
+    let mig_pool = migrate_version_pool();
     for (secs, phase) in phases {
         d.step(&Op::At { secs: secs + t_extra, nanos: rng.below(1000) as i64 });
         let started = secs >= 3000;
@@ -773,6 +775,11 @@ fn gen_case(rng: &mut Rng, variant: usize, thorough: bool, lits: &[u128]) -> (Ca
                     let p = *rng.pick(&[min_price, cur, cur.saturating_sub(1).max(min_price), min_price + (cur - min_price) / 2]);
                     d.step(&Op::UpdateDiscountPrice { who: CREATOR.into(), price: p });
                 }
+            }
+            // now and then the minter is migrated (the price in force and the payout must not move)
+            if rng.chance(1, 7) {
+                let (who, stored) = gen_migrate_args(rng, &mig_pool);
+                d.step(&Op::Migrate { who, stored });
             }
             // a mint of some kind with its payment sweep
             let _ = phase;
@@ -839,6 +846,36 @@ fn corpus() -> Vec<Case> {
             ],
             ..base_case(variant)
         });
+        // migrations inside the sale: after a discount, after a price cut, by a stranger; the price
+        // in force and the payout of the next mint are what they were
+        {
+            let mig = |who: &str, stored: Option<(&str, &str)>| Op::Migrate { who: who.into(), stored: stored.map(|(a, b)| (a.to_string(), b.to_string())) };
+            v.push(Case {
+                payment_address: variant % 2 == 0,
+                ops: vec![
+                    mint_to(CREATOR, vec![]),
+                    mig(CREATOR, Some(("@own", "3.8.9"))),
+                    mint_to(CREATOR, vec![]),
+                    Op::At { secs: 3100, nanos: 0 },
+                    mint(BUYERS[0], n(100)),
+                    Op::UpdateDiscountPrice { who: CREATOR.into(), price: 80 },
+                    mig(CREATOR, Some(("@own", "3.8.9"))),
+                    mint(BUYERS[0], n(100)),
+                    mint(BUYERS[0], n(80)),
+                    Op::UpdateMintPrice { who: CREATOR.into(), price: 90 },
+                    mig(CREATOR, None),
+                    mig(STRANGER, Some(("@own", "3.0.0"))),
+                    mint(BUYERS[1], n(90)),
+                    mint(BUYERS[1], n(80)),
+                    mig(CREATOR, Some(("@own", "3.9.0"))),
+                    mint(BUYERS[1], n(80)),
+                    mig(CREATOR, Some(("@own", "99.0.0"))),
+                    mig(CREATOR, Some(("crates.io:something-else", "3.0.0"))),
+                    mint_to(CREATOR, vec![]),
+                ],
+                ..base_case(variant)
+            });
+        }
         // the payment sweep on a public mint, price 101 (not a multiple of anything), payment address set
         v.push(Case {
             price: 101,
@@ -1543,6 +1580,7 @@ fn gen_oe(rng: &mut Rng, variant: usize, thorough: bool, lits: &[u128]) -> (Case
         phases.push((65_000, "late2"));
         phases.push((110_000, "late3"));
     }
+    let mig_pool = migrate_version_pool();
     for (secs, phase) in phases {
         d.step(&OeOp::At { secs, nanos: rng.below(1000) as i64 });
         let started = secs >= 3000;
@@ -1566,6 +1604,10 @@ fn gen_oe(rng: &mut Rng, variant: usize, thorough: bool, lits: &[u128]) -> (Case
                     *rng.pick(&pool)
                 };
                 d.step(&OeOp::UpdateMintPrice { who: CREATOR.into(), price: p });
+            }
+            if rng.chance(1, 7) {
+                let (who, stored) = gen_migrate_args(rng, &mig_pool);
+                d.step(&OeOp::Migrate { who, stored });
             }
             let airdrop = if started || wl_now { rng.chance(1, 3) } else { rng.chance(4, 5) };
             let who: &str = if airdrop {
@@ -1640,6 +1682,25 @@ fn corpus2() -> Vec<Case2> {
     let omint = |who: &str, funds: Vec<(String, u128)>| OeOp::Mint { who: who.into(), funds };
     let omint_to = |who: &str, funds: Vec<(String, u128)>| OeOp::MintTo { who: who.into(), recipient: BUYERS[2].into(), funds };
     for variant in 0..3 {
+        {
+            let omig = |who: &str, stored: Option<(&str, &str)>| OeOp::Migrate { who: who.into(), stored: stored.map(|(a, b)| (a.to_string(), b.to_string())) };
+            let cfg = oe_cfg(variant);
+            v.push(Case2::Oe {
+                cfg,
+                ops: vec![
+                    omig(CREATOR, Some(("@own", "3.8.9"))),
+                    OeOp::At { secs: 3100, nanos: 0 },
+                    omint(BUYERS[0], n(100)),
+                    OeOp::UpdateMintPrice { who: CREATOR.into(), price: 90 },
+                    omig(CREATOR, Some(("@own", "3.9.0"))),
+                    omig(STRANGER, None),
+                    omint(BUYERS[0], n(100)),
+                    omint(BUYERS[0], n(90)),
+                    omig(CREATOR, Some(("@own", "99.0.0"))),
+                    omint_to(CREATOR, n(40)),
+                ],
+            });
+        }
         // the history that strands coins on the vending family pays the seller here:
         // airdrop price 100, airdrop fee 50 %: developer 25, DAOs 5 + 20, seller 50, minter 0
         let mut cfg = oe_cfg(variant);
